@@ -34,6 +34,10 @@ Definition dec_ok (d : Z) : bool := Z.abs d <? two315.
 
 Definition in_open01 (x : Z) : bool := (0 <? x) && (x <? P18).
 
+(** amount bounds of the validators: [Amount.BigInt().BitLen() > 255] (coinswap, farm) / [> 195] (token) *)
+Definition two255 : Z := 2 ^ 255.
+Definition two195 : Z := 2 ^ 195.
+
 (** The fee split shared by coinswap [DeductPoolCreationFee], farm [DeductPoolCreationFee] and
     token [feeHandler]:
       tax  := NewCoin(denom, NewDecFromInt(amt).Mul(rate).TruncateInt())
@@ -103,6 +107,27 @@ Definition update_with {P : Type} (validate : P -> outcome) (genesis_extra : P -
       else (Ok, p)
   end.
 
+(** *** InitGenesis in two stages.
+    Every module's InitGenesis first calls its [ValidateGenesis] (a failure is a panic), then
+    [SetParams], which validates again; [vg] / [sp] are what each stage checks about the parameters,
+    [gx] a module-specific condition afterwards (token: the fee denom is a registered symbol).
+      module    ValidateGenesis checks                          SetParams checks
+      coinswap  Params.Validate() (types/genesis.go, last)      Params.Validate()
+      farm      ValidateCoins("PoolCreationFee", fee) ONLY      Params.Validate()   <- the tax rate and the
+                (types/genesis.go; no call of Params.Validate)                         255-bit bound are rejected
+                                                                                       by SetParams alone
+      htlc      Params.Validate() (first)                       Params.Validate()
+      service   Params.Validate() (first)                       Params.Validate()
+      token     Params.Validate() (first)                       Params.Validate() *)
+Definition init_genesis {P : Type} (vg sp : P -> outcome) (gx : P -> bool) (p cur : P) : outcome * P :=
+  match vg p with
+  | Ok => match sp p with
+          | Ok => if gx p then (Ok, p) else (Abort, cur)
+          | _ => (Abort, cur)
+          end
+  | _ => (Abort, cur)
+  end.
+
 (** ** coinswap  (modules/coinswap/types/params.go, keeper/{fees,swap,keeper}.go) *)
 Record cs_params := mkCs { cs_fee : option Z; cs_pcf : coin; cs_tax : option Z; cs_uni : option Z }.
 
@@ -117,6 +142,7 @@ Definition validate_cs (p : cs_params) : outcome :=
            | None => Rej                                     (* ... "amount is nil" (coinswap fix; was a panic in IsPositive) *)
            | Some a =>
                if a <? 0 then Rej                            (* ... negative amount *)
+               else if two255 <=? a then Rej                 (* more than 255 bits (overflow fix) *)
                else if negb (0 <? a) then Rej                (* IsPositive *)
                else match cs_tax p with
                     | None => Abort
@@ -245,6 +271,7 @@ Definition validate_fm (p : fm_params) : outcome :=
        | None => Rej
        | Some a =>
            if a <? 0 then Rej
+           else if two255 <=? a then Rej                     (* more than 255 bits (overflow fix) *)
            else match fm_tax p with
                 | None => Abort                              (* TaxRate.GT on a nil decimal *)
                 | Some t => if negb (in_open01 t) then Rej else Ok
@@ -252,6 +279,15 @@ Definition validate_fm (p : fm_params) : outcome :=
        end.
 
 Definition update_fm := update_with validate_fm (fun _ => true).
+
+(** farm types.ValidateGenesis: [ValidateCoins("PoolCreationFee", fee)] = [sdk.NewCoins(fee).Validate()];
+    [NewCoins] panics on an invalid denom, a nil or a negative amount; nothing else about the parameters *)
+Definition vg_fm (p : fm_params) : outcome :=
+  if negb (denom_valid (c_denom (fm_pcf p))) then Abort
+  else match c_amt (fm_pcf p) with
+       | None => Abort
+       | Some a => if a <? 0 then Abort else Ok
+       end.
 
 Inductive fm_op :=
 | FmCreatePool (ncat bal_fee : Z)
@@ -322,6 +358,7 @@ Fixpoint validate_assets (seen : list Z) (l : list asset) : outcome :=
       | Some mx =>
       if negb (0 <? mx) then Rej
       else if mx <? mn then Rej
+      else if negb (int_ok (f + mn)) then Rej                (* FixedFee.SafeAdd(MinSwapAmount) fails (overflow fix) *)
       else validate_assets (a_denom a :: seen) rest
       end end end end end
   end.
@@ -481,7 +518,7 @@ Definition two64 : Z := 18446744073709551616.
     [inl why] = abort, [inr b] = whether a deposit of [dep] (base denom) suffices *)
 Definition sv_deposit_enough (p : sv_params) (price dep : Z) : Z + bool :=
   let m0 := price * sv_mult p in
-  if negb (int_ok m0) then inl 402                           (* basePrice.Mul(minDepositMultiple): "integer overflow" *)
+  if negb (int_ok m0) then inr false                         (* basePrice.SafeMul(minDepositMultiple) fails: an error (overflow fix) *)
   else if m0 <? 0 then inl 401                               (* NewCoin(base, price * multiple) negative *)
   else
     let pst := coins_amount_of 1 (sv_mindep p) in
@@ -617,6 +654,7 @@ Definition validate_tk (p : tk_params) : outcome :=
   | None => Rej                                              (* ... "amount is nil" (was a panic in IsNegative) *)
   | Some a =>
   if a <? 0 then Rej
+  else if two195 <=? a then Rej                              (* more than 195 bits (overflow fix) *)
   else if negb ((tk_beacon p =? 0) || (tk_beacon p =? 1)) then Rej
   else Ok
   end end end.
@@ -625,15 +663,16 @@ Definition validate_tk (p : tk_params) : outcome :=
 Definition update_tk := update_with validate_tk (fun p => c_denom (tk_fee p) =? 1).
 
 Inductive tk_op :=
-| TkIssue (factor bal : Z)     (* MsgIssueToken: fee factor of the symbol (decimal), owner's stake *)
-| TkMint (factor bal : Z)      (* MsgMintToken *)
+| TkIssue (factor scale bal : Z)   (* MsgIssueToken: fee factor of the symbol (decimal), scale of the fee token,
+                                     owner's balance in the fee token's min unit *)
+| TkMint (factor scale bal : Z)    (* MsgMintToken *)
 | TkDeploy (has_contract : bool)             (* MsgDeployERC20 by the authority for an existing token *)
 | TkSwapTo (has_contract : bool) (amt bal : Z)    (* MsgSwapToERC20: amount / sender balance in the token's min unit *)
 | TkSwapFrom (has_contract : bool) (amt ebal : Z) (* MsgSwapFromERC20: amount / sender balance on the ERC20 side *)
 | TkOther.
 
 (** keeper.calcTokenIssueFee, GetToken(fee denom): the issue fee in the fee token's min unit
-    (the native token has scale 0) *)
+    *)
 Definition tk_issue_fee (p : tk_params) (F : Z) : res + Z :=
   match c_amt (tk_fee p) with
   | None => inl (Panic 501)
@@ -649,20 +688,21 @@ Definition tk_issue_fee (p : tk_params) (F : Z) : res + Z :=
           else inr fee
   end.
 
-(** Token.ToMinCoin with scale 0: amount.Mul(1.0) -- only the overflow check matters *)
-Definition to_min_ok (x : Z) : bool := dec_ok (dec_of_int x).
+(** Token.ToMinCoin of the fee token (scale [s] <= 18): [amount.Mul(10^s)] as LegacyDec, truncated *)
+Definition to_min_ok (x s : Z) : bool := dec_ok (x * 10 ^ s * P18).
+Definition to_min (x s : Z) : Z := x * 10 ^ s.
 
 (** msgServer.IssueToken -> DeductIssueTokenFee *)
-Definition tk_issue (p : tk_params) (F bal : Z) : res :=
+Definition tk_issue (p : tk_params) (F s bal : Z) : res :=
   match tk_issue_fee p F with
   | inl r => r
   | inr fee =>
-      if negb (to_min_ok fee) then Panic 505
-      else fee_split 510 true fee (tk_tax p) bal
+      if negb (to_min_ok fee s) then Panic 505
+      else fee_split 510 true (to_min fee s) (tk_tax p) bal
   end.
 
 (** msgServer.MintToken -> DeductMintTokenFee *)
-Definition tk_mint (p : tk_params) (F bal : Z) : res :=
+Definition tk_mint (p : tk_params) (F s bal : Z) : res :=
   match tk_issue_fee p F with
   | inl r => r
   | inr fee =>
@@ -674,8 +714,8 @@ Definition tk_mint (p : tk_params) (F bal : Z) : res :=
           else
             let mf := dec_truncate_int m in
             if mf <? 0 then Panic 523                        (* NewDecCoinFromDec: negative amount *)
-            else if negb (to_min_ok mf) then Panic 524
-            else fee_split 530 true mf (tk_tax p) bal
+            else if negb (to_min_ok mf s) then Panic 524
+            else fee_split 530 true (to_min mf s) (tk_tax p) bal
       end
   end.
 
@@ -704,8 +744,8 @@ Definition tk_path (p : tk_params) (o : tk_op) : option res :=
   | TkDeploy c => Some (tk_deploy p c)
   | TkSwapTo c a b => Some (tk_swap_to p c a b)
   | TkSwapFrom c a b => Some (tk_swap_from p c a b)
-  | TkIssue f b => Some (tk_issue p f b)
-  | TkMint f b => Some (tk_mint p f b)
+  | TkIssue f sc b => Some (tk_issue p f sc b)
+  | TkMint f sc b => Some (tk_mint p f sc b)
   | TkOther => None
   end.
 
@@ -776,8 +816,6 @@ Definition ps_valid (s : pstate) : Prop :=
     reserves of an existing pool are positive, and amounts taken from the chain (request fees,
     deposits) are below 2^255 -- above that the SAME operation overflows under the default
     parameters as well. *)
-Definition two255 : Z := 2 ^ 255.
-
 Definition cs_op_wf (o : cs_op) : Prop :=
   match o with
   | CsSell x _ _ _ => 0 <= x
@@ -787,10 +825,9 @@ Definition cs_op_wf (o : cs_op) : Prop :=
   | _ => True
   end.
 
-Definition two192 : Z := 2 ^ 192.
 Definition sv_op_wf (o : sv_op) : Prop :=
   match o with
-  | SvBind price _ _ _ _ | SvUpdate _ price _ _ _ _ | SvEnable _ price _ _ _ => 0 <= price < two192
+  | SvBind price _ _ _ _ | SvUpdate _ price _ _ _ _ | SvEnable _ price _ _ _ => 0 <= price
   | SvRespond fee _ => 0 <= fee < two255
   | SvBlocks deps => Forall (fun d => 0 <= d < two255) deps
   | _ => True
@@ -799,29 +836,12 @@ Definition sv_op_wf (o : sv_op) : Prop :=
 (** the fee factor of a symbol of 3..64 characters lies in [1.00, 205.14] *)
 Definition tk_op_wf (o : tk_op) : Prop :=
   match o with
-  | TkIssue F _ | TkMint F _ => P18 <= F
+  | TkIssue F sc _ | TkMint F sc _ => P18 <= F /\ 0 <= sc <= 18
   | _ => True
   end.
 
-(** (2) The known findings (extreme magnitudes): a creation / issue fee amount of 2^255.2 or more
-    overflows the 315-bit [LegacyDec] inside the fee split.  [*_small] excludes that. *)
-Definition cs_small (p : cs_params) : Prop := amt_or0 (c_amt (cs_pcf p)) < two255.
-Definition fm_small (p : fm_params) : Prop := amt_or0 (c_amt (fm_pcf p)) < two255.
-Definition tk_small (p : tk_params) : Prop := amt_or0 (c_amt (tk_fee p)) < two255.
-(** service: the minimum deposit multiple is an int64; with a price of 2^193 or more the product
-    [price * multiple] can overflow the 256-bit Int for a large validated multiple (finding), while
-    under the default multiple (1000) prices up to 2^246 do not. *)
-Definition sv_small (p : sv_params) : Prop := sv_mult p < 2 ^ 63.
-(** same family in htlc: [FixedFee.Add(MinSwapAmount)] overflows the 256-bit Int *)
-Definition ht_small (p : ht_params) : Prop :=
-  Forall (fun a => amt_or0 (a_fixed a) + amt_or0 (a_min a) < two256) p.
-Definition ps_small (s : pstate) : Prop :=
-  cs_small (ps_cs s) /\ fm_small (ps_fm s) /\ tk_small (ps_tk s) /\ ht_small (ps_ht s) /\ sv_small (ps_sv s).
-
 Definition step_wf (st : pstep) : Prop :=
   match st with
-  | UpdCS _ p => cs_small p | UpdFM _ p => fm_small p | UpdTK _ p => tk_small p | UpdHT _ p => ht_small p
-  | UpdSV _ p => sv_small p
   | OpCS o => cs_op_wf o | OpSV o => sv_op_wf o | OpTK o => tk_op_wf o
   | _ => True
   end.
